@@ -69,6 +69,10 @@ func (p ReceiverEstimatedMaximumBitrate) MarshalTo(buf []byte) (n int, err error
 	   |  ...                                                          |
 	*/
 
+	if len(p.SSRCs) > math.MaxUint8 {
+		return 0, errTooManyReports
+	}
+
 	size := p.MarshalSize()
 	if len(buf) < size {
 		return 0, errPacketTooShort
